@@ -178,16 +178,24 @@ def correspond(ctx):
                             arrp[pn] = np.array([val, val] if two else val, dtype=np.intp if isint else float)
                         for pn, arr in arrp.items():
                             variants.append((False, dict(kw0, **{pn: arr, '__arr__': pn})))
+                    # a method_kwargs dictionary may hold ANY key, also ones that shadow the optimizer's own arguments or that the
+                    # optimizer treats specially (weights, alpha, tol, ...): whether the call returns or raises, the caller's dictionary
+                    # must keep exactly its keys and values
+                    if 'method_kwargs' in e['params'] and lay == 'contiguous':
+                        variants += [(False, dict(kw0, __shadow__=sk)) for sk in ('weights', 'alpha', 'tol', 'lam', 'max_iter', 'x_data')]
                     for raising, kwv in variants:
                         activate = kwv is not None
                         dkind = (kwv or {}).get('__data__')
                         arrname = (kwv or {}).get('__arr__')
-                        kwv = None if kwv is None else {k: v for k, v in kwv.items() if k not in ('__data__', '__arr__')}
+                        shadow = (kwv or {}).get('__shadow__')
+                        kwv = None if kwv is None else {k: v for k, v in kwv.items() if k not in ('__data__', '__arr__', '__shadow__')}
                         act = {k: v for k, v in (kwv or {}).items() if not isinstance(v, np.ndarray) and kw0.get(k, '<absent>') != v}
                         if dkind:
                             act['data'] = dkind
                         if arrname:
                             act = {arrname: 'array ' + repr(kwv[arrname].tolist())}
+                        if shadow:
+                            act['method_kwargs has key'] = shadow
                         objs = {}
                         kw = dict(kw0)
                         if activate:
@@ -205,6 +213,8 @@ def correspond(ctx):
                         if two_d:
                             objs['z'] = layout(z, lay if lay in ('contiguous', 'strided', 'readonly', 'list') else 'contiguous', rng)
                         for arg in (optional if not dkind else ()):      # degenerate data: no user weights, so that the method's own mask decides
+                            if arg == shadow:        # the shadowing key takes the place of the explicit argument
+                                continue
                             shape = Y.shape
                             w = np.round(rng.uniform(0.3, 1, shape) * 32) / 32
                             if e['module'] == 'classification':
@@ -222,6 +232,10 @@ def correspond(ctx):
                                     inner['weights'] = layout(np.round(rng.uniform(0.3, 1, Y.shape) * 32) / 32, 'contiguous', rng)
                             if name == 'individual_axes':
                                 inner = {'lam': 1e3}
+                            if shadow:
+                                inner[shadow] = {'weights': layout(np.round(rng.uniform(0.3, 1, Y.shape[-2:] if two_d else Y.shape[-1:]) * 32) / 32, 'contiguous', rng),
+                                                 'alpha': layout(np.round(rng.uniform(0.3, 1, Y.shape[-2:] if two_d else Y.shape[-1:]) * 32) / 32, 'contiguous', rng),
+                                                 'tol': 1e-2, 'lam': 1e3, 'max_iter': 4, 'x_data': np.arange(float(Y.shape[-1]))}[shadow]
                             objs['method_kwargs'] = inner
                             kw['method_kwargs'] = inner
                             if name == 'individual_axes':
